@@ -44,8 +44,8 @@ def generate(rng, tier):
 
 def build_groups(rng, tier):
     cases, groups = [], []
-    reps = 110 if tier == "quick" else 2500
-    forced_n = 40 if tier == "quick" else 600
+    reps = gen.N(tier, 110, 2500)
+    forced_n = gen.N(tier, 40, 600)
     for rep in range(reps + forced_n):
         bad_pos = None
         bad_set = set()
